@@ -116,6 +116,24 @@ def seeded_config(args):
     return out
 
 
+def lossless_lengths(args):
+    """Function-level oracle on the real make_transform_data_hq_lossless with synthetic coefficient
+    lists whose coded sizes are exactly the requested byte counts (a coefficient 1 costs 4 bits)."""
+    sizes, minimum = args
+    from vc2_conformance.encoder import pictures as ep
+    import importlib
+    ep = importlib.import_module("vc2_conformance.encoder.pictures")
+    def comp(nbytes):
+        return ep.ComponentCoeffs(coeff_values=[1] * (2 * nbytes), quant_matrix_values=[0] * (2 * nbytes))
+    row = [ep.SliceCoeffs(Y=comp(a), C1=comp(b), C2=comp(c)) for (a, b, c) in sizes]
+    try:
+        scaler, td = ep.make_transform_data_hq_lossless([row], minimum)
+    except Exception as e:
+        return ("exception:%s" % type(e).__name__, None, None)
+    fields = [(s["slice_y_length"], s["slice_c1_length"], s["slice_c2_length"]) for s in td["hq_slices"]]
+    return ("ok", scaler, fields)
+
+
 def run(ctx):
     ctx.extra["rule"] = (
         "correspondence: fragment headers of the real make_picture_data_units vs Model/EncoderSeq.frag_split over a grid of "
@@ -151,6 +169,36 @@ def run(ctx):
                        "differs on %r %r" % ([grid[i] for i in (bad or [])][:5], bad_first[:2]))
     ctx.sample({"fragment grid case": grid[len(grid) // 2], "headers": obs[len(grid) // 2]})
 
+    # ---- lossless slice_size_scaler: correspondence of Gen/EncLossless + function-level oracle ----
+    rng = ctx.rng
+    jobs = []
+    for L in list(range(0, 40)) + list(range(240, 270)) + list(range(500, 520)) + list(range(760, 770)) + \
+            [rng.randrange(0, 70000) for _ in range(ctx.pick(150, 3000))] + [255 * k + d for k in range(1, 60) for d in (0, 1, 2)]:
+        others = [(rng.randrange(0, L + 1), rng.randrange(0, L + 1), rng.randrange(0, L + 1)) for _ in range(rng.choice([0, 1, 2]))]
+        mine = [L, rng.randrange(0, L + 1), rng.randrange(0, L + 1)]
+        rng.shuffle(mine)
+        jobs.append((others + [tuple(mine)], rng.choice([1, 1, 1, 2, 3, 7, 300])))
+    outs = common.pmap(lossless_lengths, jobs, chunksize=16)
+    cases = []
+    for (sizes, minimum), (st, scaler, fields) in zip(jobs, outs):
+        ctx.count(1, key=("lossless-lengths", max(max(t) for t in sizes), minimum), bucket="lossless-length-fields")
+        if st != "ok":
+            ctx.violation("lossless-scaler-raises", {"sizes": sizes, "minimum_slice_size_scaler": minimum}, st)
+            continue
+        flat = [x for t in sizes for x in t]
+        ff = [x for t in fields for x in t]
+        if any(not (0 <= f <= 255) for f in ff) or any(f * scaler < b for f, b in zip(ff, flat)) or scaler < minimum:
+            ctx.violation("lossless-slice-length-field-overflow", {"sizes": sizes, "minimum_slice_size_scaler": minimum},
+                          "make_transform_data_hq_lossless: scaler %r fields %r for component byte sizes %r" % (scaler, fields, sizes),
+                          observed=fields, expected="all fields in 0..255 and field*scaler >= bytes")
+        cases.append("(%s, %s, %s, %s, %s)" % (cz(minimum), cz(max(flat)), clist(flat), cz(scaler), clist(ff)))
+    chk = ("fun '(mn, mx, lens, sc, fs) => (hq_lossless_slice_size_scaler mn mx =? sc) && "
+           "zlist_eqb (map (fun l => hq_lossless_rescaled_length l sc) lens) fs")
+    bad2 = ctx.coq_check_cases("lossless", ["Base.PyZ", "Gen.EncLossless"], chk, cases, shard=400)
+    if bad2:
+        ctx.obligation("corr:Gen/EncLossless agrees with make_transform_data_hq_lossless", False, "corr-shard",
+                       "differs on %r" % [jobs[i] for i in bad2[:4]])
+
     # ---- oracle -------------------------------------------------------------------------------
     n = ctx.pick(500, 8000)
     results = common.pmap(one_config, [(ctx.seed, i) for i in range(n)])
@@ -181,6 +229,13 @@ def run(ctx):
 
 def replay(ctx, data):
     inp = data["input"]
+    if "sizes" in inp:
+        r = lossless_lengths(([tuple(t) for t in inp["sizes"]], inp["minimum_slice_size_scaler"]))
+        print(r)
+        st, scaler, fields = r
+        flat = [x for t in inp["sizes"] for x in t]
+        ff = [x for t in (fields or []) for x in t]
+        return 1 if st != "ok" or any(not (0 <= f <= 255) for f in ff) or any(f * scaler < b for f, b in zip(ff, flat)) else 0
     if "slices_x" in inp:
         res = seeded_config((inp["slices_x"], inp["slices_y"], inp["fragment_slice_count"]))
         print(res)
